@@ -311,7 +311,7 @@ def states_group(rep, tier, timeout):
     from symoas import pipe
 
     combos = [("weight relief + point masses", dict(struct_weight_relief=True, n_point_masses=1), "tube"),
-              ("fuel + weight relief + point masses (wingbox)", dict(struct_weight_relief=True, distributed_fuel_weight=True, n_point_masses=1), "wingbox")]
+              ("fuel + weight relief + point masses (wingbox, switches as NumPy booleans)", dict(struct_weight_relief=np.True_, distributed_fuel_weight=np.True_, n_point_masses=1), "wingbox")]
     if tier == "thorough":
         combos += [("point masses only", dict(n_point_masses=2), "tube"), ("fuel + point masses (wingbox)", dict(distributed_fuel_weight=True, n_point_masses=1), "wingbox")]
     for lab, over, kind in combos:
